@@ -1101,6 +1101,17 @@ func (c *EvalCtx) call(e *ast.CallExpr) tv {
 				}
 			}
 			c.errf("errvar: string literal expected")
+		case "has":
+			// has(m, k): the map m holds an entry for key k
+			mv := c.eval(e.Args[0])
+			mt, ok := mv.t.Underlying().(*types.Map)
+			if !ok {
+				c.errf("has: not a map")
+			}
+			m := c.asTerm(mv)
+			_, hn, _, hs := ex.mapRegions(c.st, mt)
+			hr := ex.getRegion(c.st, hn, hs)
+			return tv{p.And(p.Not(p.Eq(m, p.Int(0))), p.Select(p.Select(hr, m), c.asTerm(c.eval(e.Args[1])))), types.Typ[types.Bool]}
 		case "nsent", "sentAt":
 			// the ghost log of a channel: nsent(ch) values have been sent on it so far, sentAt(ch, i) is the i-th of them
 			chv := c.eval(e.Args[0])
